@@ -194,8 +194,24 @@ static J run(const J& c)
         out.set("what", e.what());
         return out;
     }
+    bool moved = c.has("moved") && c["moved"].b;
     for (std::size_t k = 0; k < c["calls"].size(); k++)
     {
+        if (moved)
+        {
+            // the parser object is moved (constructed on even, assigned on odd calls) and the old one destroyed
+            if (k % 2 == 0)
+            {
+                auto q = std::make_unique<nitro::options::parser>(std::move(*p));
+                p = std::move(q);
+            }
+            else
+            {
+                auto q = std::make_unique<nitro::options::parser>("other", "x");
+                *q = std::move(*p);
+                p = std::move(q);
+            }
+        }
         auto toks = c["calls"][k].as_bytes_list();
         std::vector<const char*> argv;
         argv.push_back("prog");
@@ -216,7 +232,16 @@ static J run(const J& c)
             else
             {
                 auto args = p->parse(static_cast<int>(argv.size()), argv.data());
-                r = project(args, cfg);
+                if (moved)
+                {
+                    // the result object is copyable and movable: read it through a moved copy
+                    nitro::options::arguments copy = args;
+                    nitro::options::arguments last;
+                    last = std::move(copy);
+                    r = project(last, cfg);
+                }
+                else
+                    r = project(args, cfg);
             }
             r.set("oc", "ok");
         }
